@@ -217,6 +217,11 @@ def run(R):
     # and the nonce derivation of C02, which "bytes that were handed to it ... for that same key" rests on just as much)
     import props.C02 as _C02
     R.import_rules("C02", _C02.run, ["C02.decrypt", "C02.encrypt", "C02.nonce"], "C01.codec")
+    # (4d) the only lawful reason for an accepted write to become unreadable again without a `remove` is the capacity policy: an
+    # eviction (or a refusal) decided on anything but "the index holds max_records entries and the newcomer is closer than the farthest"
+    # costs settled records their place (C10's prune rules, which this clause rests on)
+    import props.C10 as _C10
+    R.import_rules("C10", _C10.run, ["C10.prune", "C10.put.prune"], "C01.evict")
     # (4c'') the spawned write task and the read path cannot panic on a record's key or value (a task that dies after put_verified
     # answered Ok leaves an accepted record that is never stored nor listed)
     import panics as _panics  # noqa: F401
@@ -273,6 +278,9 @@ def get_serves_unsettled(R, rule):
         R.viol(rule, "cache-behind-index", "NodeRecordStore::get consults the index before the cache: a validated write whose disk write is still in flight is not served, "
                "so the counter/merge comparison of a following update runs against nothing", get, get.lines[0])
     R.inst(rule, "K4 gate (must-reach)", "the cache hit of get() is reachable for a key that is not indexed yet (in-flight write)", len(hit_somes), ok)
+
+
+TRANSPARENT_DISPATCH = ("core::pin::Pin::new", "alloc::boxed::Box::new", "alloc::boxed::Box::pin", "*IntoFuture>::into_future")
 
 
 def disk_rules(R, pfx="C01"):
@@ -336,6 +344,41 @@ def disk_rules(R, pfx="C01"):
     R.inst(pfx + ".path", "K6 flows-to", "write, read and delete all use storage_dir.join(generate_filename(own key))", n, ok and n >= 3)
     if n < 3:
         R.viol(pfx + ".path", "instance-floor", "expected fs write/read/remove sites, found %d" % n)
+    # (3') one queue for the disk jobs of a key: the job that writes a record file and the job that deletes it are handed to the same
+    # dispatch primitive from the store's (single) caller, so that for one key they are queued in the order the store operations were
+    # made.  A write on the blocking pool next to a delete on the async scheduler (or an inline delete next to a spawned write) have
+    # no order at all: the delete of `put; remove` can run first and the file come back, the delete of an eviction can unlink the
+    # update that followed it.  (Necessary, not sufficient: what order the one scheduler keeps is the runtime's business.)
+    prims = {}
+    for fn, op in ((PUTV, WRITE_APIS), (REMOVE, ["std::fs::remove_file"])):
+        root = F.body(fn)
+        if root is None:
+            continue
+        prep(root)
+        for b in F.item(fn):
+            prep(b)
+            if not any(blk["term"]["k"] == "call" and not blk["cleanup"] and callee_matches(blk["term"], op) for blk in b.blocks):
+                continue
+            if b is root:
+                prims.setdefault(fn.split("::")[-1], set()).add("inline (not dispatched)")
+                continue
+            caps = [s["d"][0] for x in root.blocks for s in x["stmts"] if s["rv"]["k"] == "agg" and s["rv"]["ak"] in ("coroutine", "closure") and s["rv"]["adt"] == b.path]
+            via = set()
+            moved = Taint(root).closure(set(caps)) if caps else set()
+            for x in root.blocks:
+                t = x["term"]
+                if t["k"] == "call" and not x["cleanup"] and any(op_local(a) in moved for a in t["args"]) and not callee_matches(t, list(TRANSPARENT_DISPATCH)):
+                    via.add(t["ncallee"] or t.get("ngen") or "?")
+            prims.setdefault(fn.split("::")[-1], set()).update(via or {"? (closure not handed to a call of %s)" % fn.split("::")[-1]})
+    allp = set().union(*prims.values()) if prims else set()
+    okq = len(prims) >= 2 and len(allp) == 1
+    if len(prims) < 2:
+        R.viol(pfx + ".jobs.same-queue", "instance-floor", "expected the write job of put_verified and the delete job of remove, found %s" % sorted(prims))
+    elif not okq:
+        R.viol(pfx + ".jobs.same-queue", "queues-differ", "the record-file jobs of one key are dispatched through different primitives (%s): nothing orders a write and a delete of the same file" %
+               "; ".join("%s: %s" % (k, ", ".join(sorted(v))) for k, v in sorted(prims.items())), F.body(PUTV), F.body(PUTV).lines[0])
+    R.inst(pfx + ".jobs.same-queue", "K7 sibling agreement", "write job and delete job of a record file are handed to the same dispatch primitive", len(prims), okq,
+           {"dispatch": {k: sorted(v) for k, v in prims.items()}})
     R.who_may_call(pfx + ".nonce", [RS + "generate_nonce_for_record"], [NRS + "::get_record_from_bytes", NRS + "::prepare_record_bytes"], floor=2,
                    descr="nonce derived by generate_nonce_for_record in both encrypt and decrypt")
     okn = True
@@ -380,7 +423,7 @@ def remove_and_mark_rules(R, pfx="C01"):
             return f
         R.must_pass(pfx + ".remove", rm, [("records.remove(k)", BlockSink(on_field(["std::collections::hash::map::HashMap::remove"], "records"), "records.remove")),
                                        ("records_cache.remove(k)", BlockSink(on_field([RS + "RecordCache::remove"], "records_cache"), "cache.remove")),
-                                       ("spawn(fs::remove_file)", CallSink("tokio::task::spawn::spawn"))],
+                                       ("spawn(fs::remove_file)", CallSink("tokio::task::spawn::spawn", "tokio::task::blocking::spawn_blocking", "tokio::runtime::handle::Handle::spawn", "tokio::runtime::handle::Handle::spawn_blocking"))],
                     descr="remove always drops the key from index and cache and spawns the file delete")
         # distance index removed whenever the key was indexed
         R.gate(pfx + ".remove.by_distance", rm, BlockSink(on_field(["alloc::collections::btree::map::BTreeMap::remove"], "records_by_distance"), "records_by_distance.remove"),
@@ -423,7 +466,7 @@ def put_persist_rules(R, pfx="C01"):
     if pvb is not None:
         prep(pvb)
         g = cfg_of(pvb)
-        spawn = set(CallSink("tokio::task::spawn::spawn").blocks(pvb))
+        spawn = set(CallSink("tokio::task::spawn::spawn", "tokio::task::blocking::spawn_blocking", "tokio::runtime::handle::Handle::spawn", "tokio::runtime::handle::Handle::spawn_blocking").blocks(pvb))
         early = [b for b in RetSink("Ok").blocks(pvb) if b in g.reach((0,), avoid=spawn)]
         if early:
             vals = lambda b: Taint(b).closure({d for d, r, p in field_reads(b, "value")})
